@@ -1810,3 +1810,1068 @@ pub mod lv {
         (g.steps, g.stats)
     }
 }
+
+// =====================================================================
+// C15: strings (mutable vectors of Unicode scalar values) and characters
+// =====================================================================
+pub mod st {
+    use super::*;
+    use crate::choice::Choices;
+    use std::cell::RefCell;
+    use std::rc::Rc;
+
+    pub const POOL: usize = 6;
+    pub const MAX_OPS: usize = 10;
+
+    pub struct StrObj {
+        pub id: u32,
+        pub chars: RefCell<Vec<char>>,
+    }
+
+    #[derive(Clone, Debug, PartialEq)]
+    pub enum Arg {
+        S(usize),
+        Lit(String),
+        Int(i128),
+        Char(char),
+        /// `(list c ...)` or `(vector c ...)` written inline (which one is decided by the operation)
+        Chars(Vec<char>),
+    }
+
+    #[derive(Clone, Debug, PartialEq)]
+    pub struct Step {
+        pub op: &'static str,
+        pub args: Vec<Arg>,
+        pub store: Option<usize>,
+    }
+
+    pub const CMP: [&str; 5] = ["=?", "<?", ">?", "<=?", ">=?"];
+    pub const OPS: &[&str] = &[
+        "ref", "string-copy", "string", "make-string", "make-string/1", "list->string", "vector->string",
+        "string-length", "string-ref", "string-set!", "substring", "string-fill!", "string->list",
+        "string->vector", "string-append", "string-upcase", "string-downcase", "string-foldcase",
+        "string=?", "string<?", "string>?", "string<=?", "string>=?",
+        "string-ci=?", "string-ci<?", "string-ci>?", "string-ci<=?", "string-ci>=?",
+        "char->integer", "integer->char", "char-upcase", "char-downcase", "char-foldcase",
+        "char-alphabetic?", "char-numeric?", "char-whitespace?", "char-upper-case?", "char-lower-case?",
+        "char=?", "char<?", "char>?", "char<=?", "char>=?",
+        "char-ci=?", "char-ci<?", "char-ci>?", "char-ci<=?", "char-ci>=?",
+    ];
+
+    pub fn op_name(s: &str) -> Option<&'static str> {
+        OPS.iter().find(|o| **o == s).copied()
+    }
+
+    pub fn pool_name(i: usize) -> String {
+        format!("s{}", i)
+    }
+
+    fn chars_sx(head: &str, cs: &[char]) -> Sx {
+        Sx::call(head, cs.iter().map(|c| Sx::Char(*c)).collect())
+    }
+
+    pub fn arg_sx(op: &str, a: &Arg) -> Sx {
+        match a {
+            Arg::S(i) => Sx::Sym(pool_name(*i)),
+            Arg::Lit(s) => Sx::Str(s.clone()),
+            Arg::Int(i) => big(*i),
+            Arg::Char(c) => Sx::Char(*c),
+            Arg::Chars(cs) => chars_sx(if op == "vector->string" { "vector" } else { "list" }, cs),
+        }
+    }
+
+    pub fn step_expr(s: &Step) -> Sx {
+        let args: Vec<Sx> = s.args.iter().map(|a| arg_sx(s.op, a)).collect();
+        match s.op {
+            "ref" => args.into_iter().next().unwrap_or(Sx::Str(String::new())),
+            "make-string/1" => Sx::call("string-length", vec![Sx::call("make-string", args)]),
+            op => Sx::call(op, args),
+        }
+    }
+
+    pub fn step_form(s: &Step) -> Sx {
+        let e = step_expr(s);
+        match s.store {
+            Some(k) => Sx::call("define", vec![Sx::Sym(pool_name(k)), e]),
+            None => e,
+        }
+    }
+
+    pub fn render_steps(steps: &[Step]) -> String {
+        let mut out = String::new();
+        for s in steps {
+            step_form(s).write_to(&mut out);
+            out.push('\n');
+        }
+        out
+    }
+
+    fn parse_arg(x: &Sx) -> Result<Arg, String> {
+        match x {
+            Sx::Int(i) => i.to_i128().map(Arg::Int).ok_or_else(|| "integer too large".to_string()),
+            Sx::Char(c) => Ok(Arg::Char(*c)),
+            Sx::Str(s) => Ok(Arg::Lit(s.clone())),
+            Sx::Sym(s) => match s.strip_prefix('s').and_then(|r| r.parse::<usize>().ok()) {
+                Some(n) if n < POOL => Ok(Arg::S(n)),
+                _ => Err(format!("unknown name {}", s)),
+            },
+            Sx::List(v) if !v.is_empty() && matches!(v[0].as_sym(), Some("list") | Some("vector")) => {
+                let mut cs = vec![];
+                for e in v[1..].iter() {
+                    match e {
+                        Sx::Char(c) => cs.push(*c),
+                        o => return Err(format!("not a character: {}", o)),
+                    }
+                }
+                Ok(Arg::Chars(cs))
+            }
+            o => Err(format!("unsupported argument {}", o)),
+        }
+    }
+
+    fn parse_expr(x: &Sx, store: Option<usize>) -> Result<Step, String> {
+        match x {
+            Sx::List(v) if !v.is_empty() => {
+                let head = v[0].as_sym().ok_or("operator is not a symbol")?;
+                if head == "string-length" && v.len() == 2 && v[1].head_is("make-string") {
+                    let inner = v[1].as_list().unwrap();
+                    let args = inner[1..].iter().map(parse_arg).collect::<Result<Vec<_>, _>>()?;
+                    return Ok(Step { op: "make-string/1", args, store });
+                }
+                let op = op_name(head).ok_or_else(|| format!("unknown operation {}", head))?;
+                let args = v[1..].iter().map(parse_arg).collect::<Result<Vec<_>, _>>()?;
+                Ok(Step { op, args, store })
+            }
+            other => Ok(Step { op: "ref", args: vec![parse_arg(other)?], store }),
+        }
+    }
+
+    pub fn parse_script(text: &str) -> Result<Vec<Step>, String> {
+        let forms = crate::sx::read_all(text)?;
+        let mut steps = vec![];
+        for f in forms.iter() {
+            if f.head_is("define") {
+                let v = f.as_list().unwrap();
+                if v.len() != 3 {
+                    return Err("bad define".into());
+                }
+                let k = match parse_arg(&v[1])? {
+                    Arg::S(k) => k,
+                    _ => return Err("define of a non-pool name".into()),
+                };
+                steps.push(parse_expr(&v[2], Some(k))?);
+            } else {
+                steps.push(parse_expr(f, None)?);
+            }
+        }
+        Ok(steps)
+    }
+
+    #[derive(Clone)]
+    pub enum SVal {
+        Str(Rc<StrObj>),
+        Char(char),
+        Int(i128),
+        Bool(bool),
+        CharList(Vec<char>),
+        CharVec(Vec<char>),
+        /// the trusted base (Rust std) cannot decide this value
+        Unknown,
+    }
+
+    pub fn to_sx(v: &SVal) -> Sx {
+        match v {
+            SVal::Str(s) => Sx::Str(s.chars.borrow().iter().collect()),
+            SVal::Char(c) => Sx::Char(*c),
+            SVal::Int(i) => big(*i),
+            SVal::Bool(b) => Sx::Bool(*b),
+            SVal::CharList(cs) => Sx::List(cs.iter().map(|c| Sx::Char(*c)).collect()),
+            SVal::CharVec(cs) => Sx::Vector(cs.iter().map(|c| Sx::Char(*c)).collect()),
+            SVal::Unknown => Sx::Opaque("unspecified".into()),
+        }
+    }
+
+    pub enum Res {
+        Vals(Vec<SVal>),
+        Unspec,
+        MustErr,
+        /// metamorphic: same outcome as this form
+        Same(Sx),
+        Invalid(String),
+    }
+
+    /// Characters whose simple case folding cannot be derived from Rust's std
+    /// tables (std has lower/upper mappings only): folding differs from
+    /// lower-casing, or the full mapping is not one-to-one.
+    pub fn fold_undecidable(c: char) -> bool {
+        let u = c as u32;
+        matches!(
+            c,
+            'ς' | 'ſ' | 'µ' | 'ϐ' | 'ϑ' | 'ϕ' | 'ϖ' | 'ϰ' | 'ϱ' | 'ϵ' | 'ẛ' | 'ẞ' | 'İ' | '\u{1fbe}' | '\u{345}'
+        ) || (0x13a0..=0x13fd).contains(&u)
+            || (0xab70..=0xabbf).contains(&u)
+            || (0x1c80..=0x1c88).contains(&u)
+            || c.to_uppercase().count() != 1
+            || c.to_lowercase().count() != 1
+    }
+
+    fn simple_lower(c: char) -> Option<char> {
+        let mut it = c.to_lowercase();
+        match (it.next(), it.next()) {
+            (Some(x), None) => Some(x),
+            _ => None,
+        }
+    }
+
+    fn simple_upper(c: char) -> Option<char> {
+        let mut it = c.to_uppercase();
+        match (it.next(), it.next()) {
+            (Some(x), None) => Some(x),
+            _ => None,
+        }
+    }
+
+    pub fn nonascii_cased(c: char) -> bool {
+        !c.is_ascii() && (c.to_lowercase().next() != Some(c) || c.to_lowercase().count() != 1)
+    }
+
+    /// Class of a (start, end) range on a string of `len` characters.
+    pub fn range_class(start: Option<i128>, end: Option<i128>, len: usize) -> String {
+        let len = len as i128;
+        let st = match start {
+            None => return "whole".into(),
+            Some(s) => s,
+        };
+        if st < 0 || end.map(|e| e < 0).unwrap_or(false) {
+            return "neg".into();
+        }
+        if let Some(en) = end {
+            if st == en {
+                return if st > len { "start=end>len".into() } else { "start=end".into() };
+            }
+            if st > en {
+                return "start>end".into();
+            }
+        }
+        if st == len {
+            return if end.is_some() { "start=len,end>len".into() } else { "start=len".into() };
+        }
+        if st > len {
+            return if len == 0 { "str:empty,start>len".into() } else { "start>len".into() };
+        }
+        if let Some(en) = end {
+            if en > len {
+                return "end>len".into();
+            }
+        }
+        "valid".into()
+    }
+
+    pub struct Store {
+        pub pool: Vec<Option<Rc<StrObj>>>,
+        next: u32,
+    }
+
+    impl Default for Store {
+        fn default() -> Self {
+            Store::new()
+        }
+    }
+
+    impl Store {
+        pub fn new() -> Store {
+            Store { pool: vec![None; POOL], next: 0 }
+        }
+
+        fn mk(&mut self, cs: Vec<char>) -> Rc<StrObj> {
+            self.next += 1;
+            Rc::new(StrObj { id: self.next, chars: RefCell::new(cs) })
+        }
+
+        /// contents of a string argument (pool string or literal)
+        fn str_arg(&self, a: &Arg) -> Result<(Option<Rc<StrObj>>, Vec<char>), String> {
+            match a {
+                Arg::S(i) => match self.pool.get(*i).and_then(|s| s.clone()) {
+                    Some(s) => {
+                        let cs = s.chars.borrow().clone();
+                        Ok((Some(s), cs))
+                    }
+                    None => Err(format!("s{} is not defined", i)),
+                },
+                Arg::Lit(s) => Ok((None, s.chars().collect())),
+                o => Err(format!("{:?} is not a string argument", o)),
+            }
+        }
+
+        pub fn pool_sx(&self) -> Vec<(String, Sx)> {
+            self.pool
+                .iter()
+                .enumerate()
+                .filter_map(|(i, s)| s.as_ref().map(|s| (pool_name(i), Sx::Str(s.chars.borrow().iter().collect()))))
+                .collect()
+        }
+
+        pub fn aliases(&self, id: u32) -> usize {
+            self.pool.iter().flatten().filter(|s| s.id == id).count()
+        }
+
+        fn ints(s: &Step, from: usize) -> Result<Vec<i128>, String> {
+            s.args[from.min(s.args.len())..]
+                .iter()
+                .map(|a| match a {
+                    Arg::Int(i) => Ok(*i),
+                    o => Err(format!("{:?} is not an integer", o)),
+                })
+                .collect()
+        }
+
+        /// (class, boundary index?, touches a multi-byte string?)
+        pub fn classify(&self, s: &Step) -> (String, bool, bool) {
+            let sarg = |i: usize| s.args.get(i).and_then(|a| self.str_arg(a).ok()).map(|x| x.1);
+            let int = |i: usize| match s.args.get(i) {
+                Some(Arg::Int(k)) => Some(*k),
+                _ => None,
+            };
+            let multibyte = |cs: &Vec<char>| cs.iter().any(|c| c.len_utf8() > 1);
+            let mut boundary = false;
+            let mut mb = false;
+            let all_chars: Vec<char> = s
+                .args
+                .iter()
+                .flat_map(|a| match a {
+                    Arg::Char(c) => vec![*c],
+                    Arg::Chars(cs) => cs.clone(),
+                    Arg::S(_) | Arg::Lit(_) => self.str_arg(a).map(|x| x.1).unwrap_or_default(),
+                    _ => vec![],
+                })
+                .collect();
+            let ascii = if all_chars.iter().all(|c| c.is_ascii()) { "ascii" } else { "nonascii" };
+            let cls: String = match s.op {
+                "string-ref" | "string-set!" => match sarg(0) {
+                    Some(cs) => {
+                        mb = multibyte(&cs) || matches!(s.args.get(2), Some(Arg::Char(c)) if c.len_utf8() > 1);
+                        if cs.is_empty() {
+                            boundary = true;
+                            "str:empty".into()
+                        } else {
+                            let ic = index_class(int(1).unwrap_or(0), cs.len());
+                            boundary = is_boundary_class(ic);
+                            format!("k={}", ic)
+                        }
+                    }
+                    None => "?".into(),
+                },
+                "substring" | "string-copy" | "string->list" | "string-fill!" => match sarg(0) {
+                    Some(cs) => {
+                        let off = if s.op == "string-fill!" { 2 } else { 1 };
+                        mb = multibyte(&cs) || matches!(s.args.get(1), Some(Arg::Char(c)) if c.len_utf8() > 1);
+                        let (a, b) = (int(off), int(off + 1));
+                        let len = cs.len() as i128;
+                        boundary = [a, b].iter().flatten().any(|k| *k == 0 || *k == len || *k == len - 1 || *k == len + 1);
+                        mb = mb && (a.is_some() || s.op == "string-fill!");
+                        range_class(a, b, cs.len())
+                    }
+                    None => "?".into(),
+                },
+                "string" | "string-append" => (if s.args.is_empty() { "argc=0" } else { "argc>0" }).into(),
+                "make-string" | "make-string/1" => {
+                    let k = int(0).unwrap_or(0);
+                    (if k < 0 { "k<0" } else if k == 0 { "k=0" } else { "k>0" }).into()
+                }
+                "integer->char" => {
+                    let n = int(0).unwrap_or(0);
+                    boundary = matches!(n, 0xd7ff | 0xd800 | 0xdfff | 0xe000 | 0x10ffff | 0x110000 | 0 | -1);
+                    (if n < 0 {
+                        "neg"
+                    } else if n >= (1i128 << 32) {
+                        "huge"
+                    } else if n > 0x10ffff {
+                        ">10ffff"
+                    } else if (0xd800..=0xdfff).contains(&n) {
+                        "surrogate"
+                    } else {
+                        "valid"
+                    })
+                    .into()
+                }
+                op if op.starts_with("char-ci") || op.starts_with("string-ci") => {
+                    (if all_chars.iter().any(|c| nonascii_cased(*c)) { "nonascii-cased" } else { "plain" }).into()
+                }
+                "string-upcase" | "string-downcase" | "string-foldcase" => {
+                    let sig = all_chars.contains(&'Σ');
+                    format!("{}{}", ascii, if sig { ",has-capital-sigma" } else { "" })
+                }
+                "char-upcase" | "char-downcase" | "char-foldcase" => {
+                    let multi = all_chars.iter().any(|c| c.to_uppercase().count() != 1 || c.to_lowercase().count() != 1);
+                    format!("{}{}", ascii, if multi { ",multi-map" } else { "" })
+                }
+                op if op.starts_with("char") => ascii.into(),
+                op if op.starts_with("string") && CMP.iter().any(|c| op.ends_with(c)) => format!("argc={}", s.args.len()),
+                _ => ascii.into(),
+            };
+            (cls, boundary, mb)
+        }
+
+        /// Execute one operation on the model (R7RS 6.6, 6.7; the character
+        /// tables are those of Rust's std, the trusted base of this check).
+        pub fn apply(&mut self, s: &Step) -> Res {
+            macro_rules! tryi {
+                ($e:expr) => {
+                    match $e {
+                        Ok(v) => v,
+                        Err(e) => return Res::Invalid(e),
+                    }
+                };
+            }
+            let argc = s.args.len();
+            let one = |v: SVal| Res::Vals(vec![v]);
+            let char_args = || -> Result<Vec<char>, String> {
+                s.args
+                    .iter()
+                    .map(|a| match a {
+                        Arg::Char(c) => Ok(*c),
+                        o => Err(format!("{:?} is not a character", o)),
+                    })
+                    .collect()
+            };
+            // valid range on a string of n characters
+            let range = |st: Option<i128>, en: Option<i128>, n: usize| -> Option<(usize, usize)> {
+                let n = n as i128;
+                let st = st.unwrap_or(0);
+                let en = en.unwrap_or(n);
+                if st < 0 || en < 0 || st > en || en > n {
+                    None
+                } else {
+                    Some((st as usize, en as usize))
+                }
+            };
+            match s.op {
+                "ref" => {
+                    if argc != 1 {
+                        return Res::Invalid("ref takes one argument".into());
+                    }
+                    match &s.args[0] {
+                        Arg::S(_) => {
+                            let (o, _) = tryi!(self.str_arg(&s.args[0]));
+                            one(SVal::Str(o.unwrap()))
+                        }
+                        _ => Res::Invalid("only a pool string can be aliased".into()),
+                    }
+                }
+                "string-copy" | "substring" | "string->list" => {
+                    if argc == 0 || argc > 3 || (s.op == "substring" && argc != 3) {
+                        return Res::Invalid("arity".into());
+                    }
+                    let (_, cs) = tryi!(self.str_arg(&s.args[0]));
+                    let iv = tryi!(Self::ints(s, 1));
+                    match range(iv.first().copied(), iv.get(1).copied(), cs.len()) {
+                        Some((a, b)) => {
+                            let sub = cs[a..b].to_vec();
+                            if s.op == "string->list" {
+                                one(SVal::CharList(sub))
+                            } else {
+                                let o = self.mk(sub);
+                                one(SVal::Str(o))
+                            }
+                        }
+                        None => Res::MustErr,
+                    }
+                }
+                "string" => {
+                    let cs = tryi!(char_args());
+                    let o = self.mk(cs);
+                    one(SVal::Str(o))
+                }
+                "make-string" | "make-string/1" => {
+                    if (s.op == "make-string") != (argc == 2) || argc == 0 {
+                        return Res::Invalid("arity".into());
+                    }
+                    let k = match &s.args[0] {
+                        Arg::Int(k) => *k,
+                        _ => return Res::Invalid("size is not an integer".into()),
+                    };
+                    if k < 0 {
+                        return Res::MustErr;
+                    }
+                    if k > 64 {
+                        return Res::Invalid("size too large for the harness".into());
+                    }
+                    if s.op == "make-string/1" {
+                        return one(SVal::Int(k));
+                    }
+                    let c = match &s.args[1] {
+                        Arg::Char(c) => *c,
+                        _ => return Res::Invalid("fill is not a character".into()),
+                    };
+                    let o = self.mk(vec![c; k as usize]);
+                    one(SVal::Str(o))
+                }
+                "list->string" | "vector->string" => match s.args.first() {
+                    Some(Arg::Chars(cs)) if argc == 1 => {
+                        let o = self.mk(cs.clone());
+                        one(SVal::Str(o))
+                    }
+                    _ => Res::Invalid("expects one inline character sequence".into()),
+                },
+                "string-length" => {
+                    if argc != 1 {
+                        return Res::Invalid("arity".into());
+                    }
+                    let (_, cs) = tryi!(self.str_arg(&s.args[0]));
+                    one(SVal::Int(cs.len() as i128))
+                }
+                "string-ref" => {
+                    if argc != 2 {
+                        return Res::Invalid("arity".into());
+                    }
+                    let (_, cs) = tryi!(self.str_arg(&s.args[0]));
+                    let k = tryi!(Self::ints(s, 1))[0];
+                    if k >= 0 && k < cs.len() as i128 {
+                        one(SVal::Char(cs[k as usize]))
+                    } else {
+                        Res::MustErr
+                    }
+                }
+                "string-set!" => {
+                    if argc != 3 {
+                        return Res::Invalid("arity".into());
+                    }
+                    let (o, cs) = tryi!(self.str_arg(&s.args[0]));
+                    let o = match o {
+                        Some(o) => o,
+                        None => return Res::Invalid("mutation of a literal".into()),
+                    };
+                    let k = match &s.args[1] {
+                        Arg::Int(k) => *k,
+                        _ => return Res::Invalid("index is not an integer".into()),
+                    };
+                    let c = match &s.args[2] {
+                        Arg::Char(c) => *c,
+                        _ => return Res::Invalid("not a character".into()),
+                    };
+                    if k >= 0 && k < cs.len() as i128 {
+                        o.chars.borrow_mut()[k as usize] = c;
+                        Res::Unspec
+                    } else {
+                        Res::MustErr
+                    }
+                }
+                "string-fill!" => {
+                    if !(2..=4).contains(&argc) {
+                        return Res::Invalid("arity".into());
+                    }
+                    let (o, cs) = tryi!(self.str_arg(&s.args[0]));
+                    let o = match o {
+                        Some(o) => o,
+                        None => return Res::Invalid("mutation of a literal".into()),
+                    };
+                    let c = match &s.args[1] {
+                        Arg::Char(c) => *c,
+                        _ => return Res::Invalid("not a character".into()),
+                    };
+                    let iv = tryi!(Self::ints(s, 2));
+                    match range(iv.first().copied(), iv.get(1).copied(), cs.len()) {
+                        Some((a, b)) => {
+                            for slot in o.chars.borrow_mut()[a..b].iter_mut() {
+                                *slot = c;
+                            }
+                            Res::Unspec
+                        }
+                        None => Res::MustErr,
+                    }
+                }
+                "string->vector" => {
+                    if argc != 1 {
+                        return Res::Invalid("arity".into());
+                    }
+                    let (_, cs) = tryi!(self.str_arg(&s.args[0]));
+                    one(SVal::CharVec(cs))
+                }
+                "string-append" => {
+                    let mut out = vec![];
+                    for a in s.args.iter() {
+                        out.extend(tryi!(self.str_arg(a)).1);
+                    }
+                    let o = self.mk(out);
+                    one(SVal::Str(o))
+                }
+                "string-upcase" | "string-downcase" | "string-foldcase" => {
+                    if argc != 1 {
+                        return Res::Invalid("arity".into());
+                    }
+                    let (_, cs) = tryi!(self.str_arg(&s.args[0]));
+                    let text: String = cs.iter().collect();
+                    let mut vals: Vec<Vec<char>> = vec![];
+                    match s.op {
+                        "string-upcase" => vals.push(text.to_uppercase().chars().collect()),
+                        "string-downcase" => {
+                            // full lower-casing with and without the context-sensitive final sigma
+                            vals.push(text.to_lowercase().chars().collect());
+                            let per: Vec<char> = cs.iter().flat_map(|c| c.to_lowercase()).collect();
+                            if per != vals[0] {
+                                vals.push(per);
+                            }
+                        }
+                        _ => {
+                            if cs.iter().any(|c| fold_undecidable(*c)) {
+                                return one(SVal::Unknown);
+                            }
+                            // folding has no context rule: every character folds by itself
+                            vals.push(cs.iter().map(|c| simple_lower(*c).unwrap_or(*c)).collect());
+                        }
+                    }
+                    let objs: Vec<SVal> = vals.into_iter().map(|v| SVal::Str(self.mk(v))).collect();
+                    Res::Vals(objs)
+                }
+                op if op.starts_with("string-ci") => {
+                    if argc < 2 {
+                        return Res::Invalid("arity".into());
+                    }
+                    for a in s.args.iter() {
+                        tryi!(self.str_arg(a));
+                    }
+                    let plain = format!("string{}", &op["string-ci".len()..]);
+                    let folded: Vec<Sx> = s.args.iter().map(|a| Sx::call("string-foldcase", vec![arg_sx(op, a)])).collect();
+                    Res::Same(Sx::call(&plain, folded))
+                }
+                op if op.starts_with("char-ci") => {
+                    if argc < 2 {
+                        return Res::Invalid("arity".into());
+                    }
+                    let cs = tryi!(char_args());
+                    let plain = format!("char{}", &op["char-ci".len()..]);
+                    let folded: Vec<Sx> = cs.iter().map(|c| Sx::call("char-foldcase", vec![Sx::Char(*c)])).collect();
+                    Res::Same(Sx::call(&plain, folded))
+                }
+                "string=?" | "string<?" | "string>?" | "string<=?" | "string>=?" | "char=?" | "char<?" | "char>?" | "char<=?" | "char>=?" => {
+                    if argc < 2 {
+                        return Res::Invalid("arity".into());
+                    }
+                    // lexicographic on scalar values; a character is a one-element sequence
+                    let mut seqs: Vec<Vec<char>> = vec![];
+                    if s.op.starts_with("char") {
+                        for c in tryi!(char_args()) {
+                            seqs.push(vec![c]);
+                        }
+                    } else {
+                        for a in s.args.iter() {
+                            seqs.push(tryi!(self.str_arg(a)).1);
+                        }
+                    }
+                    let rel = s.op.trim_start_matches("string").trim_start_matches("char");
+                    let ok = seqs.windows(2).all(|w| {
+                        let o = w[0].cmp(&w[1]);
+                        match rel {
+                            "=?" => o.is_eq(),
+                            "<?" => o.is_lt(),
+                            ">?" => o.is_gt(),
+                            "<=?" => o.is_le(),
+                            _ => o.is_ge(),
+                        }
+                    });
+                    one(SVal::Bool(ok))
+                }
+                "char->integer" => {
+                    let cs = tryi!(char_args());
+                    if cs.len() != 1 {
+                        return Res::Invalid("arity".into());
+                    }
+                    one(SVal::Int(cs[0] as u32 as i128))
+                }
+                "integer->char" => {
+                    let iv = tryi!(Self::ints(s, 0));
+                    if iv.len() != 1 {
+                        return Res::Invalid("arity".into());
+                    }
+                    let n = iv[0];
+                    if (0..=0x10ffff).contains(&n) {
+                        match char::from_u32(n as u32) {
+                            Some(c) => one(SVal::Char(c)),
+                            None => Res::MustErr,
+                        }
+                    } else {
+                        Res::MustErr
+                    }
+                }
+                "char-upcase" | "char-downcase" | "char-foldcase" | "char-alphabetic?" | "char-numeric?" | "char-whitespace?"
+                | "char-upper-case?" | "char-lower-case?" => {
+                    let cs = tryi!(char_args());
+                    if cs.len() != 1 {
+                        return Res::Invalid("arity".into());
+                    }
+                    let c = cs[0];
+                    one(match s.op {
+                        "char-upcase" => simple_upper(c).map(SVal::Char).unwrap_or(SVal::Unknown),
+                        "char-downcase" => simple_lower(c).map(SVal::Char).unwrap_or(SVal::Unknown),
+                        "char-foldcase" => {
+                            if fold_undecidable(c) {
+                                SVal::Unknown
+                            } else {
+                                SVal::Char(simple_lower(c).unwrap_or(c))
+                            }
+                        }
+                        "char-alphabetic?" => SVal::Bool(c.is_alphabetic()),
+                        "char-numeric?" => SVal::Bool(c.is_numeric()),
+                        "char-whitespace?" => SVal::Bool(c.is_whitespace()),
+                        "char-upper-case?" => SVal::Bool(c.is_uppercase()),
+                        _ => SVal::Bool(c.is_lowercase()),
+                    })
+                }
+                other => Res::Invalid(format!("unknown operation {}", other)),
+            }
+        }
+    }
+
+    fn is_mutator(op: &str) -> bool {
+        matches!(op, "string-set!" | "string-fill!")
+    }
+
+    pub fn build_script(steps: &[Step]) -> Result<Script, String> {
+        let mut st = Store::new();
+        let mut out = Script::default();
+        for s in steps {
+            let (class, boundary, mb) = st.classify(s);
+            let res = st.apply(s);
+            let expect = match res {
+                Res::Invalid(e) => return Err(format!("{}: {}", step_form(s), e)),
+                Res::Vals(vs) => match s.store {
+                    Some(k) => match vs.as_slice() {
+                        [SVal::Str(o)] => {
+                            st.pool[k] = Some(o.clone());
+                            Expect::AnyValue
+                        }
+                        _ => return Err("only a determined string result can be stored".into()),
+                    },
+                    None => Expect::Value(vs.iter().map(to_sx).collect()),
+                },
+                Res::Unspec => {
+                    if s.store.is_some() {
+                        return Err("an unspecified value cannot be stored".into());
+                    }
+                    Expect::AnyValue
+                }
+                Res::MustErr => Expect::Error,
+                Res::Same(f) => {
+                    if s.store.is_some() {
+                        return Err("a predicate result cannot be stored".into());
+                    }
+                    Expect::SameAs(f)
+                }
+            };
+            out.steps.push(ScriptStep {
+                pre: vec![],
+                form: step_form(s),
+                expect,
+                post: None,
+                pool_after: st.pool_sx(),
+                audits: vec![],
+                op: s.op,
+                class,
+                mutator: is_mutator(s.op),
+                diverges: is_mutator(s.op) || s.store.is_some(),
+                nontrivial: boundary || mb,
+            });
+        }
+        Ok(out)
+    }
+
+    // ---------------------------------------------------------------
+    // generator
+    // ---------------------------------------------------------------
+
+    const W1: [char; 16] = ['a', 'z', 'A', 'Z', 'b', 'B', '0', '9', ' ', '~', '\0', '\n', '\t', '(', '"', '\\'];
+    const W2: [char; 20] = [
+        'é', 'É', 'λ', 'Λ', 'ß', 'я', 'Я', 'µ', 'ÿ', '\u{a0}', '\u{85}', '٣', 'ǅ', 'İ', 'ı', 'ſ', 'Σ', 'σ', 'ς', '\u{7ff}',
+    ];
+    const W3: [char; 16] = [
+        '日', '€', 'ẞ', 'ꙁ', 'Ꙁ', '\u{2003}', '\u{2028}', 'Ⅷ', 'ﬁ', 'ᾳ', '\u{ffff}', '\u{fffd}', '\u{e000}', '\u{d7ff}', 'Ꭰ', 'ꭰ',
+    ];
+    const W4: [char; 7] = ['𝒳', '🐶', '𐐀', '𐐨', '\u{10ffff}', '\u{10000}', '𒀀'];
+    const LITS: [&str; 12] = ["", "abc", "o🐶o", "λx", "日本語", "aé日𝒳", "Straße", "ΑΣ", "HELLO", "Zz", "𝒳🐶", "ǅa"];
+    const CODES: [i128; 22] = [
+        0, 65, 955, 0xd7ff, 0xd800, 0xdbff, 0xdc00, 0xdfff, 0xe000, 0xffff, 0x10000, 0x10ffff, 0x110000, 0x110001, -1, -65,
+        (1 << 32) - 1, 1 << 32, (1 << 32) + 65, 1 << 63, (1 << 64) + 65, -(1 << 63),
+    ];
+
+    pub fn gen_char(c: &mut Choices) -> char {
+        match c.weighted(&[30, 25, 20, 20, 5]) {
+            0 => W1[c.below(W1.len())],
+            1 => W2[c.below(W2.len())],
+            2 => W3[c.below(W3.len())],
+            3 => W4[c.below(W4.len())],
+            _ => char::from_u32(c.u32() % 0x110000).unwrap_or('\u{fffd}'),
+        }
+    }
+
+    fn gen_chars(c: &mut Choices, max: usize) -> Vec<char> {
+        let n = c.below(max + 1);
+        (0..n).map(|_| gen_char(c)).collect()
+    }
+
+    pub struct Gen<'a, 'b> {
+        pub c: &'a mut Choices<'b>,
+        pub st: Store,
+        pub steps: Vec<Step>,
+        pub stats: GenStats,
+        pub damp: &'a dyn Fn(&str, &str) -> bool,
+    }
+
+    impl<'a, 'b> Gen<'a, 'b> {
+        fn defined(&self) -> Vec<usize> {
+            (0..POOL).filter(|i| self.st.pool[*i].is_some()).collect()
+        }
+
+        fn pool_str(&mut self) -> Option<usize> {
+            let d = self.defined();
+            if d.is_empty() {
+                None
+            } else {
+                Some(d[self.c.below(d.len())])
+            }
+        }
+
+        /// a string argument for a non-mutating operation
+        fn str_arg(&mut self) -> Arg {
+            if self.c.chance(200) {
+                if let Some(i) = self.pool_str() {
+                    return Arg::S(i);
+                }
+            }
+            if self.c.flip() {
+                Arg::Lit(LITS[self.c.below(LITS.len())].to_string())
+            } else {
+                Arg::Lit(gen_chars(self.c, 5).into_iter().collect())
+            }
+        }
+
+        fn len_of(&self, a: &Arg) -> usize {
+            self.st.str_arg(a).map(|x| x.1.len()).unwrap_or(0)
+        }
+
+        fn free_slot(&mut self) -> usize {
+            let free: Vec<usize> = (0..POOL).filter(|i| self.st.pool[*i].is_none()).collect();
+            if !free.is_empty() && !self.c.chance(40) {
+                free[0]
+            } else {
+                self.c.below(POOL)
+            }
+        }
+
+        /// start/end arguments: mostly a valid range, otherwise boundary picks
+        fn range_args(&mut self, len: usize, max_args: usize) -> Vec<Arg> {
+            let n = self.c.below(max_args + 1);
+            if n == 0 {
+                return vec![];
+            }
+            if self.c.chance(170) {
+                let a = self.c.below(len + 1);
+                let b = a + self.c.below(len - a + 1);
+                let mut v = vec![Arg::Int(a as i128)];
+                if n == 2 {
+                    v.push(Arg::Int(b as i128));
+                }
+                v
+            } else {
+                (0..n).map(|_| Arg::Int(pick_index(self.c, len))).collect()
+            }
+        }
+
+        fn push(&mut self, s: Step) -> bool {
+            let (class, _, _) = self.st.classify(&s);
+            if (self.damp)(s.op, &class) && self.c.below(8) != 7 {
+                self.stats.damped += 1;
+                return false;
+            }
+            match self.st.apply(&s) {
+                Res::Invalid(_) => {
+                    self.stats.no_candidate += 1;
+                    false
+                }
+                Res::Vals(vs) => {
+                    if let Some(k) = s.store {
+                        match vs.as_slice() {
+                            [SVal::Str(o)] => self.st.pool[k] = Some(o.clone()),
+                            _ => return false,
+                        }
+                    }
+                    self.steps.push(s);
+                    true
+                }
+                Res::MustErr => {
+                    self.steps.push(s);
+                    true
+                }
+                Res::Unspec | Res::Same(_) => {
+                    if s.store.is_some() {
+                        return false;
+                    }
+                    self.steps.push(s);
+                    true
+                }
+            }
+        }
+
+        fn init_string(&mut self) {
+            let k = self.free_slot();
+            let s = match self.c.weighted(&[30, 25, 12, 10, 8, 15]) {
+                0 => Step { op: "string-copy", args: vec![Arg::Lit(LITS[self.c.below(LITS.len())].to_string())], store: Some(k) },
+                1 => Step { op: "string-copy", args: vec![Arg::Lit(gen_chars(self.c, 6).into_iter().collect())], store: Some(k) },
+                2 => {
+                    let mut cs = gen_chars(self.c, 3);
+                    cs.push(gen_char(self.c));
+                    Step { op: "string", args: cs.into_iter().map(Arg::Char).collect(), store: Some(k) }
+                }
+                3 => Step { op: "make-string", args: vec![Arg::Int(self.c.below(4) as i128), Arg::Char(gen_char(self.c))], store: Some(k) },
+                4 => Step { op: "list->string", args: vec![Arg::Chars(gen_chars(self.c, 4))], store: Some(k) },
+                _ => match self.pool_str() {
+                    Some(j) => Step { op: "ref", args: vec![Arg::S(j)], store: Some(k) },
+                    None => Step { op: "string-copy", args: vec![Arg::Lit(String::new())], store: Some(k) },
+                },
+            };
+            self.push(s);
+        }
+
+        fn gen_op(&mut self) {
+            const W: [u32; 47] = [
+                6, 2, 3, 1, 3, 3, // string-copy string make-string make-string/1 list->string vector->string
+                3, 8, 10, 6, 9, 6, // string-length string-ref string-set! substring string-fill! string->list
+                3, 5, 3, 3, 3, // string->vector string-append upcase downcase foldcase
+                2, 3, 2, 2, 2, // string=? < > <= >=
+                3, 3, 2, 2, 2, // string-ci
+                3, 7, 3, 3, 3, // char->integer integer->char char-upcase char-downcase char-foldcase
+                2, 2, 2, 2, 2, // predicates
+                2, 2, 2, 1, 1, // char=? ...
+                3, 2, 2, 2, 2, // char-ci
+            ];
+            let op = OPS[1 + self.c.weighted(&W)];
+            let k = self.free_slot();
+            let want_store = self.c.chance(120);
+            let st = |b: bool| if b { Some(k) } else { None };
+            let step: Option<Step> = match op {
+                "string-copy" | "string->list" => {
+                    let a = self.str_arg();
+                    let n = self.len_of(&a);
+                    let mut args = vec![a];
+                    args.extend(self.range_args(n, 2));
+                    Some(Step { op, args, store: st(want_store && op == "string-copy") })
+                }
+                "substring" => {
+                    let a = self.str_arg();
+                    let n = self.len_of(&a);
+                    let mut r = self.range_args(n, 2);
+                    while r.len() < 2 {
+                        r.push(Arg::Int(pick_index(self.c, n)));
+                    }
+                    Some(Step { op, args: vec![a, r[0].clone(), r[1].clone()], store: st(want_store) })
+                }
+                "string" => Some(Step { op, args: gen_chars(self.c, 4).into_iter().map(Arg::Char).collect(), store: st(want_store) }),
+                "make-string" => Some(Step { op, args: vec![Arg::Int(self.c.range(-1, 5) as i128), Arg::Char(gen_char(self.c))], store: st(want_store) }),
+                "make-string/1" => Some(Step { op, args: vec![Arg::Int(self.c.range(-1, 5) as i128)], store: None }),
+                "list->string" | "vector->string" => Some(Step { op, args: vec![Arg::Chars(gen_chars(self.c, 5))], store: st(want_store) }),
+                "string-length" | "string->vector" | "string-upcase" | "string-downcase" | "string-foldcase" => {
+                    Some(Step { op, args: vec![self.str_arg()], store: st(want_store && op.ends_with("case") && op != "string-foldcase") })
+                }
+                "string-ref" => {
+                    let a = self.str_arg();
+                    let n = self.len_of(&a);
+                    Some(Step { op, args: vec![a, Arg::Int(pick_index(self.c, n))], store: None })
+                }
+                "string-set!" => self.pool_str().map(|i| {
+                    let n = self.len_of(&Arg::S(i));
+                    let kx = pick_index(self.c, n);
+                    Step { op, args: vec![Arg::S(i), Arg::Int(kx), Arg::Char(gen_char(self.c))], store: None }
+                }),
+                "string-fill!" => self.pool_str().map(|i| {
+                    let n = self.len_of(&Arg::S(i));
+                    let mut args = vec![Arg::S(i), Arg::Char(gen_char(self.c))];
+                    args.extend(self.range_args(n, 2));
+                    Step { op, args, store: None }
+                }),
+                "string-append" => {
+                    let n = self.c.weighted(&[1, 3, 8, 4]);
+                    Some(Step { op, args: (0..n).map(|_| self.str_arg()).collect(), store: st(want_store) })
+                }
+                "integer->char" => Some(Step { op, args: vec![Arg::Int(CODES[self.c.below(CODES.len())])], store: None }),
+                op if op.starts_with("string") => {
+                    // comparisons: related strings half of the time
+                    let n = 2 + self.c.weighted(&[8, 3]);
+                    let first = self.str_arg();
+                    let base: Vec<char> = self.st.str_arg(&first).map(|x| x.1).unwrap_or_default();
+                    let mut args = vec![first];
+                    for _ in 1..n {
+                        let a = match self.c.weighted(&[4, 2, 2, 2]) {
+                            0 => self.str_arg(),
+                            1 => Arg::Lit(base.iter().collect()),
+                            2 => {
+                                // case variant
+                                let t: String = base.iter().collect();
+                                Arg::Lit(if self.c.flip() { t.to_uppercase() } else { t.to_lowercase() })
+                            }
+                            _ => {
+                                // prefix / extension
+                                let mut t = base.clone();
+                                if self.c.flip() && !t.is_empty() {
+                                    t.pop();
+                                } else {
+                                    t.push(gen_char(self.c));
+                                }
+                                Arg::Lit(t.into_iter().collect())
+                            }
+                        };
+                        args.push(a);
+                    }
+                    Some(Step { op, args, store: None })
+                }
+                op if op.ends_with('?') && CMP.iter().any(|x| op.ends_with(x)) => {
+                    // character comparisons: case partners half of the time
+                    let n = 2 + self.c.weighted(&[8, 3]);
+                    let first = gen_char(self.c);
+                    let mut args = vec![Arg::Char(first)];
+                    for _ in 1..n {
+                        let ch = match self.c.weighted(&[4, 3, 3]) {
+                            0 => gen_char(self.c),
+                            1 => first,
+                            _ => {
+                                let up: Vec<char> = first.to_uppercase().collect();
+                                let lo: Vec<char> = first.to_lowercase().collect();
+                                if up.len() == 1 && up[0] != first {
+                                    up[0]
+                                } else if lo.len() == 1 {
+                                    lo[0]
+                                } else {
+                                    first
+                                }
+                            }
+                        };
+                        args.push(Arg::Char(ch));
+                    }
+                    Some(Step { op, args, store: None })
+                }
+                _ => Some(Step { op, args: vec![Arg::Char(gen_char(self.c))], store: None }),
+            };
+            match step {
+                Some(s) => {
+                    self.push(s);
+                }
+                None => self.stats.no_candidate += 1,
+            }
+        }
+    }
+
+    /// Decode one case: 2..=5 string definitions (some aliased), then up to 10 operations.
+    pub fn gen_case(c: &mut Choices, damp: &dyn Fn(&str, &str) -> bool) -> (Vec<Step>, GenStats) {
+        let mut g = Gen { c, st: Store::new(), steps: vec![], stats: GenStats::default(), damp };
+        let n_init = 2 + g.c.below(4);
+        for _ in 0..n_init {
+            g.init_string();
+        }
+        let base = g.steps.len();
+        let n_ops = 1 + g.c.below(MAX_OPS);
+        let mut tries = 0;
+        while g.steps.len() - base < n_ops && tries < 3 * MAX_OPS {
+            g.gen_op();
+            tries += 1;
+        }
+        (g.steps, g.stats)
+    }
+}
